@@ -22,7 +22,8 @@ TECHNIQUE = "explicit-state exploration of dataset write/open/read/copy/set/dele
 LEVEL_TEXT = ("Every enabled history of length <=3 (thorough 4; 4 extra events up to length 3) over 15 events from two initial worlds on one in-memory dataset and up to two HDF5 files is executed on the "
               "real Dataset API and compared (memory and every file, type-aware) with a plain nested-dict model; additionally each of ~150 value specs "
               "(all supported operator classes, arrays of 5 dtypes x 4 shapes, 14 sparse classes, containers of nesting <=2, molecules, pytrees, nested "
-              "datasets) is round-tripped through 7 routes.")
+              "datasets) is round-tripped through 7 routes. Alias family: every enabled history of length <=4 (5) over 11 events in which ONE "
+              "qp.data.attribute() object is assigned under several names and lists are appended to in place.")
 LEVEL_NOTE = ("Reference = nested Python dict + type-aware equality (qp.equal for operators/tapes, array_equal+dtype, sparse class/shape/dtype/values). "
               "Python ints beyond int64, str arrays, sets and bytes are outside the documented value family and not explored; info/identifier metadata only "
               "for the attribute() wrapper. Composite operators stored with the explicit operator codec are compared up to simplify().")
